@@ -28,8 +28,10 @@ def check(ctx: Ctx, col: Collector, tier: str) -> None:
              "never overwritten by a later section", "loop-carried dependence of the variables a section loop updates and the getter returns", floor=4)
     col.spec("C13.RESULT-DOC-NAME", "an @result text is attached to the result it documents: generated result names are drawn for every result, in order, as in the signature",
              "per-iteration effects of the result loop of _create_sds_docstring over (named?, described?)", floor=4)
-    col.spec("C13.SECTION-KINDS", "the text of a parameter / attribute is looked up in every docstring section that can document it", "section kinds consulted by _get_matching_docstrings against "
+    col.spec("C13.SECTION-KINDS", "the text of a parameter / attribute / result is looked up in every docstring section that can document it", "section kinds consulted by _get_matching_docstrings against "
              "the members of griffe's DocstringSectionKind; no early exit of the section search", floor=3)
+    col.spec("C13.STYLE-INDEPENDENT", "the three structured docstring styles are treated alike: the parser's code branches on the style only where the styles' syntax differs",
+             "inventory of the comparisons with self.parser, each with the syntactic difference that justifies it", floor=3)
     col.spec("C13.COMMENT-PARTS", "description, @param and @result lines of an element are rendered from that element's own documentation", "provenance of the holes of _create_sds_docstring", floor=3)
 
     pm = repo.module(DOCPARSER)
@@ -255,6 +257,30 @@ def check(ctx: Ctx, col: Collector, tier: str) -> None:
                                  "the search stops at the first top-level string statement; other statements leave the docstring untouched" if okk else "loop shape differs",
                                  *([] if okk else ["the module docstring is not the first top-level string: a later bare string (e.g. an attribute docstring) replaces the module description"]))
 
+    # ------------------------------------------------------------------ STYLE-INDEPENDENT
+    justified = {
+        ("get_result_documentation", "Parser.numpy"): "numpydoc names its results and lists several entries; handled by its own branch (the other branch is the listed finding get_result_documentation::every-entry)",
+        ("get_result_documentation", "Parser.google"): "griffe's Google parser stores a lone type in the name field of a Returns entry; the branch moves it back",
+        ("_remove_default_from_griffe_annotation", "Parser.numpy"): "only numpydoc writes ', default=...' into the type field",
+    }
+    nsites = 0
+    for mname, mfi2 in pci.methods.items():
+        for n in ast.walk(mfi2.node):
+            if isinstance(n, ast.Compare) and ast.unparse(n.left) == "self.parser" and len(n.comparators) == 1:
+                nsites += 1
+                col.touched(mfi2)
+                style = ast.unparse(n.comparators[0])
+                key = f"{DOCPARSER}::{DP}.{mname}::style-branch::{style}"
+                why = justified.get((mname, style))
+                if why:
+                    col.ok("C13.STYLE-INDEPENDENT", key, repo.loc(DOCPARSER, n), f"`{ast.unparse(n)}`: {why}")
+                else:
+                    col.bad("C13.STYLE-INDEPENDENT", key, repo.loc(DOCPARSER, n), f"`{ast.unparse(n)}` in {mname}",
+                            f"{mname} does something for the style {style} only (`{ast.unparse(repo.parent(n))[:90]}`) that is not a difference of the styles' syntax: "
+                            f"the same docstring content reaches the stub under one style and is lost under the others (e.g. constructor parameters documented in the __init__ docstring)")
+    if nsites < 3:
+        raise AnalysisError("style comparisons of the docstring parser not found")
+
     # ------------------------------------------------------------------ SECTION-KINDS
     mfi = pci.methods["_get_matching_docstrings"]
     col.touched(mfi)
@@ -285,6 +311,26 @@ def check(ctx: Ctx, col: Collector, tier: str) -> None:
                 "only the first matching section of a docstring is searched: an element documented in a later section of the same or a related kind loses its text")
     else:
         col.ok("C13.SECTION-KINDS", key, repo.loc(DOCPARSER, mfi.node), "every section of the docstring is inspected")
+
+    # ------------------------------------------------------------------ SECTION-KINDS (returns): every entry of the section is used
+    rfi2 = pci.methods["get_result_documentation"]
+    col.touched(rfi2)
+    it2 = ctx.interp(rfi2)
+    it2.summaries[("self.__get_cached_docstring", "*")] = Sym("DOC")
+    outs2 = it2.run_function(rfi2, {"self": Sym("self"), "function_qname": Sym("qname")}, State({"self": Sym("self"), "self.parser": Sym("self.parser")}))
+    first_only, whole = [], []
+    for o in outs2:
+        if o.kind != "return" or not isinstance(o.value, ListV) or not o.value.items:
+            continue
+        paths = {x.path for x in walk_av(o.value) if isinstance(x, Sym)}
+        (first_only if any(".value[0]" in p_ for p_ in paths) else whole).append(o)
+    key = f"{DOCPARSER}::{DP}.get_result_documentation::every-entry"
+    if first_only or not whole:
+        o = first_only[0] if first_only else None
+        col.bad("C13.SECTION-KINDS", key, repo.loc(DOCPARSER, rfi2.node), f"{len(first_only)} of {len(first_only) + len(whole)} non-empty result paths are built from `value[0]` only" if o else "no path over the entries",
+                "for some docstring styles only the first entry of the Returns section becomes a result documentation: the texts of further entries (Google: 'count (int): ...' / 'label (str): ...') are lost")
+    else:
+        col.ok("C13.SECTION-KINDS", key, repo.loc(DOCPARSER, rfi2.node), f"all {len(whole)} non-empty result paths iterate the entries of the Returns section")
 
     # ------------------------------------------------------------------ RESULT-DOC-NAME
     rdfi = repo.function(GEN, f"{GENCLS}._create_sds_docstring")
